@@ -26,6 +26,19 @@ is reverted the extractor regenerates `Gen.wait…`, this theorem fails and with
 theorem C13_source_is_repaired (async : Bool) : cfgOfSource async = cfgFixed async := by
   cases async <;> decide
 
+/-- hence every hypothesis `cfg.repoint = true`, `cfg.rearm = true`, `cfg.chain = true` of the
+theorems below is discharged for the checked tree, for both timer-channel semantics -/
+theorem C13_source_flags (async : Bool) :
+    (cfgOfSource async).repoint = true ∧ (cfgOfSource async).rearm = true ∧ (cfgOfSource async).chain = true := by
+  rw [C13_source_is_repaired]; exact ⟨rfl, rfl, rfl⟩
+
+/-- the wake-up branches stop and drain the timer before going back to RESET_TIMER — what
+`Thread.stopDrain` transcribes; without the drain a stale expiry survives `Reset` under
+`asynctimerchan=1` and `TimerInv.armed_buf` (hence `C13_timeout_never_early`) would be false.
+`testing/synctest` refuses `asynctimerchan=1`, so this side of the model is tied by this extracted
+fact only, not by traces. -/
+theorem C13_source_drains : (Gen.waitReadDrains && Gen.waitWriteDrains) = true := by decide
+
 /-! ## defects of the original loops, proved on the model by evaluation -/
 
 /-- thread `i` is blocked in its `select`, nothing can move, and the deadline `d` stored in the cell has passed -/
@@ -101,45 +114,6 @@ theorem C13_D8_multi_deadline_counterexample (async : Bool) :
       (fun s => (s.ths[1]?.map (fun t => (t.ret, t.retAt)) == some (some .timeout, 300)) && (s.sh.rd == some 700))
       = some true := by
   cases async <;> decide
-
-/-! ## enabledness of the exits of a blocked caller -/
-
-theorem canStep_read_tok {cfg : Cfg} {sh : Sh} {t : Thread} (hk : t.kind = .read) (hp : t.pc = .sel)
-    (h : sh.rtok = true) : t.canStep cfg sh = true :=
-  canStep_of_choice .tok (by simp [tstep, tstepRead, hk, hp, h])
-
-theorem canStep_write_tok {cfg : Cfg} {sh : Sh} {t : Thread} (hk : t.kind = .write) (hp : t.pc = .sel)
-    (h : sh.wtok = true) : t.canStep cfg sh = true :=
-  canStep_of_choice .tok (by simp [tstep, tstepWrite, hk, hp, h])
-
-theorem canStep_timeout {cfg : Cfg} {sh : Sh} {t : Thread} (hp : t.pc = .sel)
-    (hc : t.c = true) (hb : t.buf = true) : t.canStep cfg sh = true :=
-  canStep_of_choice .timeout (by cases hk : t.kind <;> simp [tstep, tstepRead, tstepWrite, tstepAccept, hk, hp, hc, hb])
-
-theorem canStep_armed {cfg : Cfg} {sh : Sh} {t : Thread} {d : Time} (ha : t.armed = some d) (hd : d ≤ sh.now) :
-    t.canStep cfg sh = true :=
-  canStep_of_fire (by simp [Thread.fire, ha, hd])
-
-theorem canStep_aboutToCheck {cfg : Cfg} {sh : Sh} {t : Thread} (h : t.aboutToCheck) : t.canStep cfg sh = true := by
-  obtain ⟨hk, hp | hp | hp⟩ := h
-  · exact canStep_of_choice .go (by simp [tstep, tstepRead, hk, hp])
-  · refine canStep_of_choice .go ?_
-    simp only [tstep, tstepRead, hk, hp]; split <;> rfl
-  · refine canStep_of_choice .go ?_
-    simp only [tstep, tstepRead, hk, hp]; split <;> rfl
-
-/-- a blocked caller whose loaded deadline has passed can move (timer expiry or timeout case) -/
-theorem canStep_deadline_passed {cfg : Cfg} {sh : Sh} {t : Thread} {d : Time} (hinv : TimerInv sh.now t)
-    (hp : t.pc = .sel) (hs : t.seen = some d) (hd : d ≤ sh.now) : t.canStep cfg sh = true := by
-  have := hinv.deadline (Or.inr (Or.inr hp)) d hs
-  rcases this.2 with ⟨ha, _⟩ | ⟨_, hb, _⟩
-  · exact canStep_armed ha hd
-  · exact canStep_timeout hp this.1 hb
-
-theorem not_canStep_of_quiescent {cfg : Cfg} {s : State} {t : Thread} (hq : quiescent cfg s = true)
-    (ht : t ∈ s.ths) : t.canStep cfg s.sh = false := by
-  simp only [quiescent, List.all_eq_true] at hq
-  simpa using hq t ht
 
 /-! ## C13: data / free window wake the caller (one caller per kind) -/
 
